@@ -141,6 +141,9 @@ FIRING = [
     ("rsmk-zero-weight-times-inf", "jesse/indicators/rsmk.py", "np.sum(np.where(lag < 0, 0.0, weights * segment.reshape(1, -1)), axis=1)", "np.sum(weights * segment.reshape(1, -1), axis=1)", ["C13"]),
     ("sar-one-candle-bare-number", "jesse/indicators/sar.py", "        return low.copy() if sequential else low[-1]\n", "        return low[-1]\n", ["C14"]),
     ("srsi-empty-stochastic-indexed", "jesse/indicators/srsi.py", "        if len(fast_k) == 0:\n            return StochasticRSI(np.nan, np.nan)\n", "", ["C14"]),
+    ("hma-zero-warm-up", "jesse/indicators/hma.py", "    wma = np.full(arr.shape, np.nan)\n", "    wma = np.zeros_like(arr)\n", ["C15"]),
+    ("smma-length-dependent-scale", "jesse/indicators/smma.py", "        out[t] = num / den\n", "        out[t] = num / den * (1 + 0.001 * n)\n", ["C13"]),
+    ("fast-fill-before-clock", BT, "                            store.app.time = storable_temp_candle[0] + 60_000\n                            order.execute()\n", "                            order.execute()\n                            store.app.time = storable_temp_candle[0] + 60_000\n", ["C01", "C12"]),
     ("dna-append-multiple-empty", "jesse/libs/dynamic_numpy_array/__init__.py", "        if len(items) == 0:\n            return\n", "", ["C18"]),
     ("dna-delete-raw-index", "jesse/libs/dynamic_numpy_array/__init__.py", "        if index < 0:\n            index = (self.index + 1) - abs(index)\n        if index > self.index or index < 0:\n            raise IndexError('list assignment index out of range')\n\n        self.array = np.delete", "        self.array = np.delete", ["C18"]),
 ]
